@@ -6,7 +6,7 @@ THEOREMS = [
     "Lou.Contract.fwdRun_inv", "Lou.C04.fwd_lengths", "Lou.C04.fwd_inlen_nonneg",
     "Lou.C04.fwd_valid_out_default", "Lou.C04.fwd_valid_out_dotsIO",
     "Lou.C04.fwd_ret0_iff", "Lou.C04.fwd_ret0_logged", "Lou.C04.inlen_negative_witness",
-    "Lou.C04.idEngine_ok",
+    "Lou.C04.idEngine_ok", "Lou.C04.back_lengths", "Lou.C04.back_ret0_iff",
 ]
 
 CLAIM = dict(
@@ -19,7 +19,7 @@ CLAIM = dict(
           "table. The property text (incl. the completeness clause with capacity 32*inlen+256) is evaluated on every "
           "implementation result as the search oracle."),
     note=("Engines are parameters: completeness (whole input consumed) is checked on real runs of shipped tables, not proved; "
-          "backward lengths are oracle-checked (theorems for the backward composition loop not yet written); invalid "
+          "backward: back_lengths (0<=inlen'<=length up to the first NUL, outlen'<=outlen) for any engine satisfying E1/E3; invalid "
           "arguments (NULL pointers, negative lengths) are outside the model's argument type."),
     technique="Lean 4 proof over a hand-written driver model with engines as parameters + trace-validation correspondence + oracle search",
     design="DESIGN.md §7 C04")
@@ -106,6 +106,11 @@ def run(tier):
             u = corpus.rand_input(rng)
             ops.append(st.gen_fwd_op(rng, t, inp=u, mode=rng.choice([0, 0, 1, 4, 4 | 64, 128]), cap=32 * len(u) + 256,
                                      argmask=rng.choice([31, 28, 0, 12])))
+            if rng.random() < 0.15:
+                # lou_free() between calls is legal: the next call must succeed as before (stale scratch sizes would
+                # make it return 0 without a message)
+                ops.append("FREE")
+                ops.append(ops[-2])
         cases.append(common.Case("c04-full%d" % ti, ["LOGDUMP 1", "HOOK trace 1"], ops, {"table": t}))
     # display tables lacking mappings: return 0 with an error
     for di, dis in enumerate(corpus.display_tables()[: (4 if tier == "quick" else 40)]):
@@ -115,6 +120,11 @@ def run(tier):
             base = st.gen_fwd_op(rng, "en-us-g2.ctb", inp=u, mode=0, cap=3 * len(u) + 8, argmask=256 | 28)
             ops.append(base + " " + corpus.tpath(dis))
         cases.append(common.Case("c04-dis%d" % di, ["LOGDUMP 1", "HOOK trace 1"], ops, {"table": "en-us-g2.ctb+" + dis}))
+    wide = st.wide_cases(rng, 200 if tier == "quick" else 2500, per_table=6, back=True, exact=False, tag="c04w", budget=3000000,
+                         modes_f=[0, 0, 4, 4, 1, 4 | 64, 128, 4 | 128, 64])
+    for c in wide:
+        c.setup.insert(0, "LOGDUMP 1")
+    cases += wide
     calls = st.run_and_trace(exe, cases)
     dist = {"fwd": 0, "back": 0, "ret0": 0, "truncated": 0, "generous": 0, "contract_fail": 0, "noR": 0}
     trace_bad = []
